@@ -748,6 +748,8 @@ func (tr *FnTrans) conv(x Val, to types.Type) string {
 	case fs == "Slice" && ts == "Str":
 		n := tr.smt.fresh("b2s", "Str")
 		tr.assume("true", fmt.Sprintf("(= (strlen %s) (slen %s))", n, x.T), "string(bytes) length")
+		tr.smt.declareFun("is_b2s", []string{"Str", "Slice"}, "Bool")
+		tr.assume("true", fmt.Sprintf("(is_b2s %s %s)", n, x.T), "string(bytes) origin")
 		return n
 	case ts == "Str" && isInteger(from):
 		return tr.smt.fresh("i2s", "Str")
